@@ -192,6 +192,7 @@ func (db *RockDB) SAdd(ts int64, key []byte, args ...[]byte) (int64, error) {
 
 	wb := db.wb
 	defer wb.Clear()
+	args = dedupKeepLast(args)
 
 	keyInfo, err := db.prepareCollKeyForWrite(ts, SetType, key, nil)
 	if err != nil {
@@ -362,6 +363,7 @@ func (db *RockDB) SRem(ts int64, key []byte, args ...[]byte) (int64, error) {
 	}
 	wb := db.wb
 	defer wb.Clear()
+	args = dedupKeepLast(args)
 	keyInfo, err := db.GetCollVersionKey(ts, SetType, key, false)
 	if err != nil {
 		return 0, err
